@@ -164,6 +164,14 @@ func doHistory(full string, ops []string) string {
 					return "err/" + freshMarshal(m)
 				}
 				return hx(buf) + "/" + freshMarshal(m)
+			case "TF":
+				// MarshalTo into a buffer the CALLER sized (from a copy): the message's own Size() is not called first
+				sz := freshCopy(m).(sizer).Size()
+				buf := bytes.Repeat([]byte{0xA5}, sz)
+				if err := m.(marshalerTo).MarshalTo(buf); err != nil {
+					return "err/" + freshMarshal(m)
+				}
+				return hx(buf) + "/" + freshMarshal(m)
 			case "RS":
 				if runtimeName == "gogo" {
 					type xs interface{ XXX_Size() int }
